@@ -221,11 +221,53 @@ DflowVerdict(it) ==
                               \o ":expected-out=" \o ToString({v \in vars : LiveAt(it, <<b, i + 1>>, v)})
      ELSE "ok"
 
+(* ---- C39: dependency-graph slices.                                                                            *)
+(*   [t |-> "slice", path (the full blocks of the history in execution order, the last one cut at the queried line), *)
+(*    vals <<[n, w, v]>> (value of each queried element computed from the SLICE, over the initial state), envs]       *)
+(*   [t |-> "pathcond", path, w, sat <<BOOLEAN per environment>>, envs]: the solver's verdict on the path constraints  *)
+RECURSIVE RunSeq(_, _, _)
+RunSeq(path, i, env) ==                  \* executes the blocks one after the other, whatever IRDst says
+  IF i > Len(path) THEN [ok |-> TRUE, unk |-> FALSE, env |-> env]
+  ELSE LET r == StepBlock(path[i].abs, 1, env) IN IF r.ok THEN RunSeq(path, i + 1, r.env) ELSE r
+SliceCheck(it, env) ==
+  LET r == RunSeq(it.path, 1, env) IN
+  IF ~r.ok THEN (IF r.unk THEN "unk" ELSE "undef")
+  ELSE LET vs == [i \in 1..Len(it.vals) |-> Eval(it.vals[i].v, env)] IN
+       IF \E i \in 1..Len(vs) : vs[i].unk THEN "unk"
+       ELSE IF \E i \in 1..Len(vs) : ~vs[i].ok THEN "slice-value-undefined"
+       ELSE IF \E i \in 1..Len(vs) : vs[i].v # FromBytes(r.env.ids[it.vals[i].n], it.vals[i].w)
+            THEN "element:" \o it.vals[CHOOSE i \in 1..Len(vs) : vs[i].v # FromBytes(r.env.ids[it.vals[i].n], it.vals[i].w)].n
+       ELSE "ok"
+RECURSIVE FirstBadSlice(_, _)
+FirstBadSlice(it, k) ==
+  IF k > Len(it.envs) THEN "ok"
+  ELSE LET v == SliceCheck(it, it.envs[k]) IN
+       IF v \in {"ok", "undef"} THEN FirstBadSlice(it, k + 1) ELSE IF v = "unk" THEN "unk" ELSE "bad:" \o ToString(k) \o ":" \o v
+(* does concrete execution follow the history?  after each block but the last, IRDst must designate the next block *)
+RECURSIVE Follows(_, _, _, _)
+Follows(path, i, env, w) ==
+  IF i > Len(path) THEN "yes"
+  ELSE LET r == StepBlock(path[i].abs, 1, env) IN
+       IF ~r.ok THEN (IF r.unk THEN "unk" ELSE "undef")
+       ELSE IF i < Len(path) /\ DstVal(r.env, w) # LocVal(r.env, path[i + 1].loc, w) THEN "no"
+       ELSE Follows(path, i + 1, r.env, w)
+RECURSIVE FirstBadCond(_, _)
+FirstBadCond(it, k) ==
+  IF k > Len(it.envs) THEN "ok"
+  ELSE LET f == Follows(it.path, 1, it.envs[k], it.w) IN
+       IF f = "unk" THEN "unk"
+       ELSE IF f = "undef" THEN FirstBadCond(it, k + 1)
+       ELSE IF (f = "yes") # it.sat[k] THEN "bad:" \o ToString(k) \o ":constraints-" \o (IF it.sat[k] THEN "satisfied" ELSE "violated")
+                                             \o "-but-execution-" \o (IF f = "yes" THEN "follows" ELSE "leaves") \o "-the-history"
+       ELSE FirstBadCond(it, k + 1)
+
 Verdict(it) ==
   CASE it.t = "symb" -> FirstBadSymb(it, 1)
     [] it.t = "equiv" -> FirstBadEquiv(it, 1)
     [] it.t = "lifted" -> TypeCheck(it)
     [] it.t = "ssa" -> SsaVerdict(it)
     [] it.t = "dflow" -> DflowVerdict(it)
+    [] it.t = "slice" -> FirstBadSlice(it, 1)
+    [] it.t = "pathcond" -> FirstBadCond(it, 1)
 Report == lo < hi \/ PrintT("V " \o ToString(cur) \o " " \o Verdict(Items[cur]))
 =============================================================================
